@@ -50,7 +50,8 @@ PLAN = {
         "parts": [
             s_part("S-x86-placements", "C01", "x86_64_linux", 40000, 2000000),
             s_part("S-other-variants", "C01", "aarch64_linux,arm_linux", 8000, 400000),
-            s_part("S-windows-long-entry", "C01", "x86_64_windows", 600, 20000, selftest=60),
+            s_part("S-windows-long-entry", "C01", "x86_64_windows,aarch64_windows", 600, 20000, selftest=60),
+            s_part("S-macos", "C01", "aarch64_macos,x86_64_macos", 300, 10000, selftest=40),
             n_part("N-synthetic-and-real", "C01", 480, 24000),
         ],
     },
@@ -157,6 +158,8 @@ PLAN = {
         "level": "fault_enumeration",
         "rule": "as C02; every write to code must be covered by a later icache flush before the API call returns; distinct = class tuples",
         "assumptions": [A_S, A_N],
-        "parts": [s_part("S-histories", "C17", LINUX3, 24000, 2400000), n_part("N-histories", "C17", 480, 48000)],
+        "parts": [s_part("S-histories", "C17", LINUX3, 24000, 2400000),
+                  s_part("S-histories-windows-macos", "C17", "x86_64_windows,aarch64_windows,aarch64_macos,x86_64_macos", 800, 40000, selftest=40),
+                  n_part("N-histories", "C17", 480, 48000)],
     },
 }
